@@ -197,12 +197,13 @@ def hygiene():
 ALLOWED_AXIOMS = set()  # target: none.  Extend (by name) only together with DESIGN.md section 7.
 
 
-def assumptions_of(prop_id, theorem_names):
+def assumptions_of(prop_id, theorem_names, props_files=None):
     """Print Assumptions for each pinned theorem through a generated file; returns dict name -> text"""
     os.makedirs(BUILD, exist_ok=True)
     path = os.path.join(BUILD, f"assum_{prop_id}.v")
     with open(path, "w") as f:
-        f.write(f"From RQ Require Import Props.{prop_id}.\n")
+        for pf in (props_files or [prop_id]):
+            f.write(f"From RQ Require Import Props.{pf}.\n")
         for n in theorem_names:
             f.write(f'Goal True. idtac "@@BEGIN {n}". Abort.\nPrint Assumptions {n}.\n')
         f.write('Goal True. idtac "@@END". Abort.\n')
